@@ -11,6 +11,8 @@ import (
 	"hash/fnv"
 	"io"
 	"net"
+	"os"
+	"strconv"
 	"sync"
 	"testing"
 	"time"
@@ -180,11 +182,21 @@ type verifC14Acc struct {
 	m       *mon.M
 	cases   int
 	counts  map[string]int64
-	classes map[string]bool
+	classes map[verifC14Class]bool
+}
+
+type verifC14Class struct {
+	role      refws.Role
+	comp      bool
+	term      refws.TermKind
+	termFrame int
+	reason    string
+	lim, cut  bool
+	top       string
 }
 
 func verifC14NewAcc(m *mon.M) *verifC14Acc {
-	return &verifC14Acc{m: m, counts: map[string]int64{}, classes: map[string]bool{}}
+	return &verifC14Acc{m: m, counts: map[string]int64{}, classes: map[verifC14Class]bool{}}
 }
 func (a *verifC14Acc) Count(k string, n int64) { a.counts[k] += n }
 func (a *verifC14Acc) Flush() {
@@ -193,13 +205,13 @@ func (a *verifC14Acc) Flush() {
 		a.m.Count(k, v)
 	}
 	for k := range a.classes {
-		a.m.Class(k)
+		a.m.Classf("%s/c%v/%s@%d/%s/lim%v/cut%v/top-%s", k.role, k.comp, k.term, k.termFrame, k.reason, k.lim, k.cut, k.top)
 	}
-	a.cases, a.counts, a.classes = 0, map[string]int64{}, map[string]bool{}
+	a.cases, a.counts, a.classes = 0, map[string]int64{}, map[verifC14Class]bool{}
 }
 
 // verifC14Eval runs one (trace, cut, configuration) and compares with the model.
-func verifC14Eval(acc *verifC14Acc, cfg verifC14Cfg, frames []refws.Frame, wire []byte, cut int, origin string) {
+func verifC14Eval(acc *verifC14Acc, cfg verifC14Cfg, frames []refws.Frame, wire []byte, cut int, origin func() string) {
 	m := acc.m
 	acc.cases++
 	exp := refws.Receive(refws.RecvConfig{Role: cfg.role, Limit: cfg.limit, Compression: cfg.comp, InflateFn: verifC14Inflate}, frames, cut)
@@ -209,7 +221,7 @@ func verifC14Eval(acc *verifC14Acc, cfg verifC14Cfg, frames []refws.Frame, wire 
 	}
 	rep := func() interface{} {
 		d := refws.Describe(frames)
-		r := map[string]interface{}{"origin": origin, "role": cfg.role.String(), "compression": cfg.comp, "limit": cfg.limit,
+		r := map[string]interface{}{"origin": origin(), "role": cfg.role.String(), "compression": cfg.comp, "limit": cfg.limit,
 			"read_buf": cfg.readBuf, "chunk": cfg.chunk, "mode": cfg.mode, "cut": cut, "frames": d,
 			"model": map[string]interface{}{"term": exp.Term.String(), "reason": exp.Reason, "term_frame": exp.TermFrame, "messages": len(exp.Messages), "pongs": len(exp.Pongs)}}
 		if len(in) <= 600 {
@@ -226,7 +238,7 @@ func verifC14Eval(acc *verifC14Acc, cfg verifC14Cfg, frames []refws.Frame, wire 
 		return
 	}
 	top := verifC14TopClass(frames)
-	acc.classes[fmt.Sprintf("%s/c%v/%s@%d/%s/lim%v/cut%v/top-%s", cfg.role, cfg.comp, exp.Term, exp.TermFrame, exp.Reason, cfg.limit > 0, cut >= 0, top)] = true
+	acc.classes[verifC14Class{cfg.role, cfg.comp, exp.Term, exp.TermFrame, exp.Reason, cfg.limit > 0, cut >= 0, top}] = true
 	acc.Count("term_"+exp.Term.String(), 1)
 	if o.neverFail {
 		m.Violationf("c14:reader-never-fails", rep(), "more messages returned than frames in the stream")
@@ -560,13 +572,13 @@ func TestVerif_C14_Enum(t *testing.T) {
 	m := mon.New("C14", "enum")
 	defer m.Finish(t)
 	depth := m.N(3, 4)
-	bigDepth := m.N(2, 4) // quick: 65535/65536 payloads only in traces of <= 2 frames
-	sample := m.N(4, 6)
+	bigDepth := m.N(1, 4) // quick: 65535/65536 payloads only in one-frame traces (+ sentinel); the random part fragments big messages
+	sample := m.N(8, 6)
 	m.Rule(fmt.Sprintf("bounded-exhaustive, prefix-closed: every trace of <= %d frames over opcode{0,1,2,8,9,10,3,11} x FIN x RSV{0,1,2,3} x mask{right,wrong} x "+
 		"length{0,5,125,126,65535,65536,2^63,2^64-256} (+15 close payload variants) whose proper prefixes are violation-free (decided by refws.Receiver), at most one "+
 		"65535/65536 payload per trace and only in traces of <= %d frames, each followed by a sentinel ping + message; x {client,server} x {compression off, negotiated} x read "+
-		"limits {0, exact, exact-1, first-frame-1, 1} (non-zero limits: every trace of < %d frames; of the %d-frame traces those with a top-bit length, and 1/%d (by trace index) "+
-		"of those with a data frame); distinct = role x compression x model terminal kind@frame x rule x limit? x top-bit class",
+		"limits {0, exact, exact-1, first-frame-1, 1} (non-zero limits: every trace of < %d frames; of the %d-frame traces 1/%d (by trace index) of those with a data frame, and "+
+		"in the quick tier only limit 1 for the others that carry a top-bit length; quick tier: with compression negotiated a full-depth trace is run only if RSV1 occurs in it); distinct = role x compression x model terminal kind@frame x rule x limit? x top-bit class",
 		depth, bigDepth, depth, depth, sample))
 	m.Exhaustive(true)
 	syms := verifC14Alphabet()
@@ -603,13 +615,19 @@ func TestVerif_C14_Enum(t *testing.T) {
 		comp   bool
 		prefix []int
 		bigs   int
+		rsv1   bool // some prefix frame carries RSV1
 	}
+	quickPrune := m.Quick()
 	var jobs []job
 	for _, role := range []refws.Role{refws.RoleServer, refws.RoleClient} {
 		for _, comp := range []bool{false, true} {
 			var rec func(prefix []int, open bool, bigs int)
 			rec = func(prefix []int, open bool, bigs int) {
-				jobs = append(jobs, job{role, comp, append([]int{}, prefix...), bigs})
+				r1 := false
+				for _, si := range prefix {
+					r1 = r1 || syms[si].rsv == 1
+				}
+				jobs = append(jobs, job{role, comp, append([]int{}, prefix...), bigs, r1})
 				if len(prefix) == depth-1 {
 					return
 				}
@@ -633,6 +651,14 @@ func TestVerif_C14_Enum(t *testing.T) {
 			rec(nil, false, 0)
 		}
 	}
+	if v := os.Getenv("VERIF_C14_DEBUG_JOBS"); v != "" { // profiling aid only
+		k, _ := strconv.Atoi(v)
+		var sub []job
+		for i := 0; i < len(jobs); i += k {
+			sub = append(sub, jobs[i])
+		}
+		jobs = sub
+	}
 	m.Note("prefix_jobs", len(jobs))
 	m.Require("term_protocol-error", 1000)
 	m.Require("term_close-received", 100)
@@ -653,12 +679,15 @@ func TestVerif_C14_Enum(t *testing.T) {
 			if s.big() && (j.bigs > 0 || len(seq) > bigDepth) {
 				continue
 			}
+			if quickPrune && j.comp && len(seq) == depth && !j.rsv1 && s.rsv != 1 {
+				continue // quick tier: with compression negotiated, full-depth traces only when RSV1 occurs in them
+			}
 			seq[len(seq)-1] = si
 			frames := verifC14Trace(syms, seq, j.role, j.comp, true)
 			wire, _ := refws.Gen(frames)
 			tid := ji*len(syms) + si
 			cfg := verifC14Cfg{role: j.role, comp: j.comp, readBuf: []int{256, 125, 256, 1024}[tid%4]}
-			origin := fmt.Sprintf("enum:%v", seq)
+			origin := func() string { return fmt.Sprintf("enum:%v", seq) }
 			verifC14Eval(acc, cfg, frames, wire, -1, origin)
 			acc.Count("traces", 1)
 			hasData, hasTop := false, false
@@ -673,7 +702,11 @@ func TestVerif_C14_Enum(t *testing.T) {
 			if len(seq) == depth && !hasTop && (!hasData || tid%sample != 0) {
 				continue
 			}
-			for _, l := range verifC14Limits(frames) {
+			lims := verifC14Limits(frames)
+			if quickPrune && len(seq) == depth && hasTop && (!hasData || tid%sample != 0) {
+				lims = []int64{1} // quick tier: the smallest limit only (the one a negative length slips under)
+			}
+			for _, l := range lims {
 				cfg.limit = l
 				verifC14Eval(acc, cfg, frames, wire, -1, origin)
 			}
@@ -838,7 +871,7 @@ func TestVerif_C14_Random(t *testing.T) {
 		lims := append([]int64{0, 0}, verifC14Limits(frames)...)
 		lims = append(lims, int64(r.Range(1, 300)))
 		cfg.limit = lims[r.Intn(len(lims))]
-		verifC14Eval(accFor(w), cfg, frames, wire, -1, fmt.Sprintf("random:%d", i))
+		verifC14Eval(accFor(w), cfg, frames, wire, -1, func() string { return fmt.Sprintf("random:%d", i) })
 	})
 	mon.Parallel(ncut, func(w, i int) {
 		r := m.Rand("cut", i)
@@ -860,7 +893,7 @@ func TestVerif_C14_Random(t *testing.T) {
 		lims := append([]int64{0, 0, 0}, verifC14Limits(frames)...)
 		cfg.limit = lims[r.Intn(len(lims))]
 		for cut := 0; cut <= len(wire); cut++ {
-			verifC14Eval(accFor(w), cfg, frames, wire, cut, fmt.Sprintf("cut:%d", i))
+			verifC14Eval(accFor(w), cfg, frames, wire, cut, func() string { return fmt.Sprintf("cut:%d", i) })
 			accFor(w).Count("cut_offsets", 1)
 		}
 	})
